@@ -103,6 +103,14 @@ def eval_case(case):
         return eval_policy(case)
     lists, role = case['lists'], case['role']
     spec = {'banner': case.get('banner', 'SSH-2.0-OpenSSH_8.4p1 Debian-5'), 'kex': lists['kex'], 'key': lists['key'], 'enc': lists['enc'], 'mac': lists['mac']}
+    if case.get('asym'):
+        # the other direction advertises something else; reports are about the server-to-client lists in every view
+        # (the extra names are outside the Terrapin classes, so that context is the same in both directions)
+        spec['enc_c'] = ['arcfour'] + lists['enc'][::-1]
+        spec['mac_c'] = lists['mac'][::-1] + ['hmac-sha1']
+    if case.get('probe_trouble'):
+        # the follow-up connections of the probes run into trouble (refused / closed / silent); what is said about it is presentation
+        spec['faults'] = [[w, i, f] for (w, f) in [case['probe_trouble']] for i in range(1, 30)]
     fails = []
     db = gens.db()
     runs = {}
@@ -227,19 +235,24 @@ def eval_subproc(case):
     fails = []
     outs = {}
     argv = case['argv']
-    peer = fakenet.Server(spec)
-    with drive.RealServers([peer]) as rs:
-        port = rs.ports[0]
-        for hs in case['hashseeds']:
+    if case.get('limited'):
+        # only the first follow-up connection is served, every later one is closed at once: which probes get an answer
+        # depends on the order the tool makes them in - that order may not depend on string hashing
+        spec['faults'] = [['connect', i, 'close'] for i in range(2, 60)]
+        spec['hostkeys']['ecdsa-sha2-nistp256'] = {'t': 'ecdsa', 'curve': 'nistp256'}
+    for hs in case['hashseeds']:
+        # a fresh scripted server per run: connection indices start at 0 every time
+        with drive.RealServers([fakenet.Server(spec)]) as rs:
+            port = rs.ports[0]
             r = drive.run_subprocess(argv + ['--skip-rate-test', '-p', str(port), '127.0.0.1'], env_extra={'PYTHONHASHSEED': str(hs)})
-            outs[hs] = (r.code, r.out)
+            outs[hs] = (r.code, r.out.replace(':%d' % port, ':PORT'))
     if len(set(outs.values())) != 1:
         fails.append(['output-depends-on-hash-seed', repr({k: v[0] for k, v in outs.items()})])
     net = fakenet.FakeNet()
     net.add('127.0.0.1', port, fakenet.Server(spec), ips=[(2, '127.0.0.1')])
     ra = drive.run_cli(argv + ['--skip-rate-test', '-p', str(port), '127.0.0.1'], net)
     code_b, out_b = next(iter(outs.values()))
-    agree = (ra.code, ra.out) == (code_b, out_b)
+    agree = (ra.code, ra.out.replace(':%d' % port, ':PORT')) == (code_b, out_b)
     if not agree and os.environ.get('VERIF_STRICT_AB'):
         import difflib
         d = list(difflib.unified_diff(out_b.split('\n'), ra.out.split('\n'), lineterm='', n=0))[:8]
@@ -248,8 +261,10 @@ def eval_subproc(case):
 
 
 def strat_peer():
-    return st.tuples(st.one_of(gens.rated_peer(), gens.rated_peer(), gens.rated_peer(), gens.all_clean_peer()), st.sampled_from(['server', 'server', 'client']), st.one_of(st.none(), st.none(), gens.unknown_name(12).filter(lambda s: not s.startswith('gss-')), gens.gss_name())).map(
-        lambda t: _cross({'kind': 'peer', 'lists': dict(t[0], kex=t[0]['kex'] + ([t[2]] if t[2] else [])), 'role': t[1]}))
+    trouble = st.sampled_from([None, None, None, ['connect', 'refuse'], ['connect', 'close'], ['connect', 'timeout'], ['banner', 'close'], ['kexinit', 'stall'], ['gex_group', 'close']])
+    return st.tuples(st.one_of(gens.rated_peer(), gens.rated_peer(), gens.rated_peer(), gens.all_clean_peer()), st.sampled_from(['server', 'server', 'client']), st.one_of(st.none(), st.none(), gens.unknown_name(12).filter(lambda s: not s.startswith('gss-')), gens.gss_name()),
+                     st.sampled_from([False, False, True]), trouble, st.booleans()).map(
+        lambda t: _cross(dict({'kind': 'peer', 'lists': dict(t[0], kex=t[0]['kex'] + ([t[2]] if t[2] else []) + (['diffie-hellman-group-exchange-sha256'] if t[4] and t[5] else [])), 'role': t[1]}, **dict(([('asym', True)] if t[3] else []) + ([('probe_trouble', t[4])] if t[4] and t[1] == 'server' else [])))))
 
 
 def _cross(case):
@@ -295,6 +310,8 @@ def run(ctx):
             lists['key'] = lists['key'] + ['zz-hostkey']
         argv = [['-n'], ['-n', '-j'], ['-n', '-v'], ['-b'], ['-jj']][i % 5]
         sub.append({'kind': 'subproc', 'lists': {c: list(dict.fromkeys(l)) for c, l in lists.items()}, 'argv': argv, 'hashseeds': [0, 1, 2, 3, 4, 12345]})
+        if i % 4 == 2:
+            sub.append({'kind': 'subproc', 'limited': True, 'lists': dict(sub[-1]['lists'], key=['rsa-sha2-512', 'ssh-ed25519', 'ecdsa-sha2-nistp256', 'ssh-rsa']), 'argv': argv, 'hashseeds': [0, 1, 2, 3, 4, 5, 6, 12345]})
     pc = [{'kind': 'policy', 'legacy': lg, 'larger': la, 'drift': dr, 'rsa': rsa, 'dh': dh} for lg in (False, True) for la in (False, True) for dr in (False, True) for rsa in (3072, 4096, 2048) for dh in (3072, 2048)]
     ctx.map(pc)
     ctx.map(sub, chunk=1)
